@@ -156,7 +156,7 @@ def run(ctx, rep):
                             return ("cont", (("assign", roles["compiler_version"], hv),))
                         if o(("eq", hk, ("lit", "str", "min_api"))):
                             if o(("is", hv, "Some")):
-                                pr = ("call", "core::str::parse", (mk_payload(hv, "Some", "0"),))
+                                pr = ("call", "core::str::parse::<u32>", (mk_payload(hv, "Some", "0"),))
                                 v = some(mk_payload(pr, "Ok", "0")) if o(("is", pr, "Ok")) else NONE
                             else:
                                 v = NONE
